@@ -8,6 +8,9 @@ def run(cx):
     R.eqhash(cx)
     from . import io_segments
     io_segments.owned_events(cx)
+    # two loads are independent of each other and of earlier loads: the reader keeps no module-level state
+    from . import mef_rules
+    mef_rules.no_module_state(cx, ('io',))
     cx.exhaustive = True
     cx.floor('ATTRSET', cx.rules.get('ATTRSET', 0), 60, 'attribute wiring obligations')
     cx.decided += [
